@@ -842,6 +842,99 @@ func runC05(c *Ctx) {
 				fmt.Sprintf("the function that defers instance.Close() also sends the instance's run result (%d send(s)): the deferred Close runs after the send", len(sends)))
 		}
 		c.Floor("O5.7", "functions arming defer instance.Close()", nArm, 1)
+		// every exit of a function that closes an instance it was GIVEN is preceded by the arming of the Close: a return
+		// placed before `defer instance.Close()` (a cancelled-already fast path, say) leaves a created and bound gun open.
+		// Where the function creates the instance itself, returns before the creation and on its error edge are free.
+		newInst := P.Func("core/engine", "", "newInstance")
+		for _, g := range PkgFuncs(sp) {
+			if !IsProdFile(P.File(g.Pos())) {
+				continue
+			}
+			var arms []*ssa.Defer
+			EachInstr(g, func(in ssa.Instruction) {
+				if d, ok := in.(*ssa.Defer); ok && d.Call.StaticCallee() == instClose {
+					arms = append(arms, d)
+				}
+			})
+			for _, arm := range arms {
+				var created *ssa.Call // the newInstance call of g the closed instance comes from, if it does
+				given := false
+				for _, r := range Roots(arm.Call.Args[0], false) {
+					if cl, _ := CallOfValue(r); cl != nil && cl.Parent() == g && newInst != nil && cl.Call.StaticCallee() == newInst {
+						created = cl
+					} else {
+						given = true
+					}
+				}
+				bad := ""
+				EachInstr(g, func(in ssa.Instruction) {
+					ret, ok := in.(*ssa.Return)
+					if !ok || InstrDominates(arm, ret) || ret.Block() == g.Recover {
+						return
+					}
+					if created != nil && !given {
+						if !CanReach(created, ret) {
+							return
+						}
+						for _, f := range CmpFactsAt(ret) {
+							if f.Op == token.NEQ && IsNilConst(f.Y) && DerivesOnly(f.X, false, IsResultOf(created, 1)) {
+								return // the creation failed: nothing to close
+							}
+						}
+					}
+					bad = P.Pos(ret.Pos())
+				})
+				c.Check(bad == "", "O5.7", fk(g)+":no-exit-before-close-is-armed", arm.Pos(),
+					"a return that `defer instance.Close()` does not dominate, with the instance already created (given to the function, or made by it without error): "+bad)
+			}
+		}
+		// ... and every created instance reaches such a function: newInstance's result is closed by a deferred/direct Close in
+		// the creating function or its closures, or handed to a function of the package that arms the Close on that parameter
+		if newInst == nil {
+			c.Anchor("O5.7", "core/engine.newInstance")
+		} else {
+			nNew := 0
+			for _, g := range PkgFuncs(sp) {
+				if !IsProdFile(P.File(g.Pos())) || g.Parent() != nil {
+					continue
+				}
+				EachInstrDeep(g, func(h *ssa.Function, in ssa.Instruction) {
+					cl, ok := in.(*ssa.Call)
+					if !ok || cl.Call.StaticCallee() != newInst {
+						return
+					}
+					nNew++
+					isInst := IsResultOf(cl, 0)
+					closed := false
+					EachInstrDeep(g, func(h2 *ssa.Function, i2 ssa.Instruction) {
+						cc := CC(i2)
+						if cc == nil || cc.StaticCallee() == nil {
+							return
+						}
+						sc := cc.StaticCallee()
+						if sc == instClose && DerivesAny(cc.Args[0], false, isInst) {
+							closed = true
+							return
+						}
+						if sc.Pkg != sp || len(sc.Blocks) == 0 {
+							return
+						}
+						for i, a := range cc.Args {
+							if i >= len(sc.Params) || !DerivesAny(a, false, isInst) {
+								continue
+							}
+							EachInstr(sc, func(i3 ssa.Instruction) {
+								if d, ok := i3.(*ssa.Defer); ok && d.Call.StaticCallee() == instClose && DerivesOnly(d.Call.Args[0], false, func(v ssa.Value) bool { return v == ssa.Value(sc.Params[i]) }) {
+									closed = true
+								}
+							})
+						}
+					})
+					c.Check(closed, "O5.7", fk(h)+":created-instance-gets-its-close-armed", cl.Pos(), "the instance newInstance returns is closed by this function (or a closure of it), or handed to a function of the package that defers its Close")
+				})
+			}
+			c.Floor("O5.7", "newInstance call sites", nNew, 1)
+		}
 		// Close: type-assert to io.Closer comma-ok, Close called on ok edge
 		var ta *ssa.TypeAssert
 		EachInstr(instClose, func(in ssa.Instruction) {
